@@ -254,6 +254,17 @@ impl<'a> Gen<'a> {
         }
     }
 
+    /// The index of a learning commit: any candidate other than the preselected one, with a
+    /// bias to the last few entries of the list (with the English option on the very last one
+    /// is the typed text itself).
+    fn learn_idx(&mut self) -> Idx {
+        if self.rng.pct(75) {
+            Idx::Other(self.rng.next_u64() as u8)
+        } else {
+            Idx::Top(self.rng.below(3) as u8)
+        }
+    }
+
     fn terminator(&mut self, h: u8, allow_learning: bool) -> Op {
         match self.rng.weighted(&[40, 25, 15, 20]) {
             0 => Op::Commit {
@@ -301,7 +312,7 @@ impl<'a> Gen<'a> {
                     ops.push(Op::Commit { h: 0, idx: Idx::Rel(self.rng.next_u64() as u8) });
                 }
                 self.type_text(&mut ops, 0, &t, if valid_sel { Sel::Presel } else { Sel::Raw(0) });
-                ops.push(Op::Commit { h: 0, idx: if self.rng.coin() { Idx::Other(self.rng.next_u64() as u8) } else { Idx::Rel(255) } });
+                ops.push(Op::Commit { h: 0, idx: if self.rng.coin() { Idx::Other(self.rng.next_u64() as u8) } else { Idx::Top(self.rng.below(3) as u8) } });
                 if self.rng.pct(30) {
                     ops.push(Op::Restart { h: 0 });
                 }
@@ -934,7 +945,7 @@ impl<'a> Gen<'a> {
             self.type_and_refresh(&mut ops, 0, &text);
             match self.rng.weighted(&[if retype { 15 } else { 60 }, 25, 15]) {
                 0 => {
-                    ops.push(Op::Commit { h: 0, idx: Idx::Other(self.rng.next_u64() as u8) });
+                    ops.push(Op::Commit { h: 0, idx: self.learn_idx() });
                     learned.push(text);
                 }
                 1 => ops.push(Op::Commit { h: 0, idx: Idx::Presel }),
@@ -1140,7 +1151,7 @@ impl<'a> Gen<'a> {
                         }
                     };
                     self.type_and_refresh(&mut ops, h, &t);
-                    ops.push(Op::Commit { h, idx: Idx::Other(self.rng.next_u64() as u8) });
+                    ops.push(Op::Commit { h, idx: self.learn_idx() });
                     if next == 6 {
                         ops.push(Op::PowerLoss);
                         for hh in 0..n_hosts {
@@ -1165,14 +1176,14 @@ impl<'a> Gen<'a> {
                         ops.push(Op::Update { h, cfg });
                     }
                 }
-                4 if self.rng.pct(20) => {
+                4 if self.rng.pct(40) => {
                     // re-loading the configuration while a word is being composed, then a
                     // commit of what was shown before (C10 names re-loading without an idle
                     // premise; only "keeps working" is judged for it)
                     let t = if self.rng.coin() { focus.clone() } else { self.rng.pick(&words).clone() };
                     self.type_text(&mut ops, h, &t, Sel::Presel);
                     ops.push(Op::Update { h, cfg });
-                    ops.push(if self.rng.coin() { Op::Commit { h, idx: Idx::Other(self.rng.next_u64() as u8) } } else { Op::Finish { h } });
+                    ops.push(if self.rng.coin() { Op::Commit { h, idx: self.learn_idx() } } else { Op::Finish { h } });
                 }
                 4 => {
                     // retype something (base + suffix half the time) and leave it
@@ -1216,7 +1227,7 @@ impl<'a> Gen<'a> {
         }
         let t = self.rng.pick(&words).clone();
         self.type_and_refresh(&mut ops, 0, &t);
-        ops.push(Op::Commit { h: 0, idx: Idx::Other(self.rng.next_u64() as u8) });
+        ops.push(Op::Commit { h: 0, idx: self.learn_idx() });
         ops.push(Op::Restart { h: 0 });
         self.type_and_refresh(&mut ops, 0, &t);
         ops.push(Op::Finish { h: 0 });
@@ -1299,7 +1310,7 @@ impl<'a> Gen<'a> {
             let term = match self.rng.weighted(&[30, 30, 20, 20]) {
                 0 => Op::Finish { h: 0 },
                 1 => Op::Commit { h: 0, idx: Idx::Presel },
-                2 => Op::Commit { h: 0, idx: Idx::Other(self.rng.next_u64() as u8) },
+                2 => Op::Commit { h: 0, idx: self.learn_idx() },
                 _ => Op::Bs { h: 0, ctrl: true },
             };
             ops.push(term);
@@ -1385,7 +1396,7 @@ impl<'a> Gen<'a> {
             let term = match self.rng.weighted(&[35, 30, 20, 15]) {
                 0 => Op::Finish { h: 0 },
                 1 => Op::Commit { h: 0, idx: Idx::Presel },
-                2 => Op::Commit { h: 0, idx: Idx::Other(self.rng.next_u64() as u8) },
+                2 => Op::Commit { h: 0, idx: self.learn_idx() },
                 _ => Op::Bs { h: 0, ctrl: true },
             };
             ops.push(term);
@@ -1714,7 +1725,7 @@ impl<'a> Gen<'a> {
         for _ in 0..n {
             let t = self.learn_text();
             self.type_and_refresh(&mut ops, 0, &t);
-            ops.push(Op::Commit { h: 0, idx: Idx::Other(self.rng.next_u64() as u8) });
+            ops.push(Op::Commit { h: 0, idx: self.learn_idx() });
             words.push(t);
             if self.rng.pct(30) {
                 let w = self.rng.pick(&words).clone();
